@@ -161,6 +161,26 @@ func checkDyn(c *wk.Ctx, stream string, i int, d rc.DynV, rng *rand.Rand, ctor b
 		c.Viol(stream, i, "reencode=differs/"+dynClass(d.T), fmt.Sprintf("re-encoding the decoded value differs at offset %d (len %d vs %d)", firstDiff(buf2.Bytes(), want), buf2.Len(), len(want)), detail)
 		return
 	}
+	// the same encoding (no trailer) through a stream that delivers it in small pieces and reports
+	// io.EOF together with the last piece, as the io.Reader contract allows
+	if len(want) <= 4096 {
+		fr := &fragReader{data: want, plan: planRandom(rng, 1+rng.Intn(9)), eofWithData: rng.Intn(3) != 0}
+		got2, err := value.NewValue(fr)
+		if err != nil {
+			c.Viol(stream, i, "decode=error/fragmented/"+dynClass(d.T), fmt.Sprintf("NewValue rejected a value's own encoding delivered in pieces (EOF with the last piece: %v): %v", fr.eofWithData, err), detail)
+			return
+		}
+		if fr.off != len(want) {
+			c.Viol(stream, i, "decode=consumption/fragmented/"+dynClass(d.T), fmt.Sprintf("NewValue consumed %d bytes of a %d-byte encoding delivered in pieces", fr.off, len(want)), detail)
+			return
+		}
+		var buf3 bytes.Buffer
+		if err := got2.Write(&buf3); err != nil || !bytes.Equal(buf3.Bytes(), want) {
+			c.Viol(stream, i, "reencode=differs/fragmented/"+dynClass(d.T), "the value decoded from a fragmented stream re-encodes differently", detail)
+			return
+		}
+		c.Count("decoded_from_a_fragmented_stream", 1)
+	}
 	if ctor && usesCtor(d) {
 		if !deepEqualValue(val, got) {
 			c.Viol(stream, i, "decode=notequal", "decoded constructor value is not equal to the original", detail)
@@ -204,7 +224,7 @@ func deepEqualValue(a, b value.Value) bool {
 }
 
 func c02(c *wk.Ctx) {
-	c.Note("rule", "streams: ctor = dynamic values built only from the public constructors (all scalar kinds, string, raw, void, lists of values nested to depth 5 / 8); opaque = value.Opaque(sig, data) for composite signatures drawn from the grammar (lists, maps, tuples, structs, double, object) whose members include m at any depth, data = reference encoding of a random value; big = long strings / raws / lists at the size caps. Oracle: Write == reference encoding; NewValue(enc||trailer) succeeds, consumes exactly len(enc), same signature, re-encodes to the same bytes; constructor values compare equal. Distinct non-trivial = distinct (stream, type shape, encoded length class).")
+	c.Note("rule", "streams: ctor = dynamic values built only from the public constructors (all scalar kinds, string, raw, void, lists of values nested to depth 5 / 8); opaque = value.Opaque(sig, data) for composite signatures drawn from the grammar (lists, maps, tuples, structs, double, object) whose members include m at any depth, data = reference encoding of a random value; big = long strings / raws / lists at the size caps. Oracle: Write == reference encoding; NewValue(enc||trailer) succeeds, consumes exactly len(enc), same signature, re-encodes to the same bytes, and the same holds when enc is delivered in pieces of 1-9 bytes with io.EOF reported together with the last piece; constructor values compare equal. Distinct non-trivial = distinct (stream, type shape, encoded length class).")
 	depth := c.Pick(5, 8)
 	c.Cases("ctor", c.Pick(30000, 600000), func(i int, rng *rand.Rand) {
 		b := 60
